@@ -30,17 +30,22 @@ CONSTANTS
   Focus,        \* step families to generate: subset of FocusAll
   EmitOneIn     \* emit (print) one in EmitOneIn of the complete behaviours, chosen at random; 1 = all
 
-VARIABLES phase, inp, prog, stack, prev, astack, hist, ahist
-vars == <<phase, inp, prog, stack, prev, astack, hist, ahist>>
+VARIABLES phase, inp, prog, stack, prev, astack, hist, ahist,
+          dstack,   \* per open sub-pipeline: which input columns its value depends on (reference analysis, C10)
+          bstack    \* per open sub-pipeline: the operator DAG the BUILDER holds after its simplifications (B model, C06/C26)
+vars == <<phase, inp, prog, stack, prev, astack, hist, ahist, dstack, bstack>>
+
+CONSTANT BDev       \* named deviations of the builder model (DESIGN.md 6): subset of BDevNames
+BDevNames == {"merge_common_branch", "select_collapse_unchecked", "join_check_dropped_after_order"}
 
 TabNames == DOMAIN TabCols
 
 \* ------------------------------------------------------------------ applying a step
 Top(stk) == stk[Len(stk)]
 SetTop(stk, t) == [stk EXCEPT ![Len(stk)] = t]
-Apply(stk, st, dev) ==
+ApplyI(stk, st, dev, I) ==
   LET n == Len(stk) top == stk[n] IN
-  CASE st[1] = "table"          -> Append(stk, inp[st[2]])
+  CASE st[1] = "table"          -> Append(stk, I[st[2]])
     [] st[1] = "dup"            -> Append(stk, top)
     [] st[1] = "extend"         -> SetTop(stk, Extend(top, st[2], dev))
     [] st[1] = "wextend"        -> SetTop(stk, WExtend(top, st[2], st[3], st[4], st[5], dev))
@@ -51,7 +56,9 @@ Apply(stk, st, dev) ==
     [] st[1] = "rename"         -> SetTop(stk, Rename(top, st[2]))
     [] st[1] = "order_rows"     -> SetTop(stk, OrderRows(top, st[2], st[3], st[4]))
     [] st[1] = "join"           -> Append(SubSeq(stk, 1, n - 2), JoinDev(stk[n - 1], top, st[2], st[3], dev))
+    [] st[1] = "joinc"          -> Append(SubSeq(stk, 1, n - 2), JoinDev(stk[n - 1], top, st[2], st[3], dev))
     [] st[1] = "concat"         -> Append(SubSeq(stk, 1, n - 2), Concat(stk[n - 1], top, st[2]))
+Apply(stk, st, dev) == ApplyI(stk, st, dev, inp)
 
 \* the documented construction rules (C26), evaluated on column lists only
 WellFormed(st, stk) ==
@@ -67,6 +74,9 @@ WellFormed(st, stk) ==
     [] st[1] = "rename"         -> RenameOK(st[2], cols)
     [] st[1] = "order_rows"     -> NoDup(st[2]) /\ SetOf(st[2]) \subseteq SetOf(cols) /\ SetOf(st[3]) \subseteq SetOf(st[2])
     [] st[1] = "join"           -> n >= 2 /\ JoinOK(st[2], st[3], stk[n - 1].cols, cols)
+    \* joinc = natural_join(..., check_all_common_keys_in_equi_spec=True)
+    [] st[1] = "joinc"          -> n >= 2 /\ JoinOK(st[2], st[3], stk[n - 1].cols, cols)
+                                         /\ CommonAreKeys(st[3], stk[n - 1].cols, cols)
     [] st[1] = "concat"         -> n >= 2 /\ ConcatOK(st[2], stk[n - 1].cols, cols)
 
 \* Observability: constructs whose result the documentation leaves open are not generated
@@ -100,6 +110,129 @@ ConvPoint(st, stk) ==
               /\ \E r \in SetOf(top.rows) :
                     \A q \in SetOf(top.rows) : KeyOf(q, st[3]) = KeyOf(r, st[3]) => q[st[2][i][3]] = NULL
     [] OTHER -> FALSE
+
+\* ------------------------------------------------------------------ dependency analysis (C10)
+\* Reference analysis of which input columns a sub-pipeline's value can depend on.  An entry is
+\* [c |-> function from its columns to sets of <<table, column>>, r |-> set of <<table, column>>]:
+\* c[x] = inputs the CELLS of column x are computed from, r = inputs that decide WHICH ROWS exist
+\* (conditions, group keys, join keys, order/limit keys).  Used = r plus every output column's set.
+DepTable(t) == [c |-> [x \in SetOf(TabCols[t]) |-> {<<t, x>>}], r |-> {}]
+ColsDeps(d, S) == UNION {d.c[x] : x \in S \cap DOMAIN d.c}
+AsgOf(asg, x) == asg[CHOOSE i \in 1..Len(asg) : asg[i][1] = x]
+DepApply(dstk, st) ==
+  LET n == Len(dstk) top == dstk[n] IN
+  CASE st[1] = "table" -> Append(dstk, DepTable(st[2]))
+    [] st[1] = "dup"   -> Append(dstk, top)
+    [] st[1] = "extend" ->
+         LET tg == SetOf(Targets(st[2])) IN
+         SetTop(dstk, [top EXCEPT !.c = [x \in DOMAIN top.c \cup tg |->
+                         IF x \in tg THEN ColsDeps(top, ColsOfE(AsgOf(st[2], x)[2])) ELSE top.c[x]]])
+    [] st[1] = "wextend" ->
+         LET tg == SetOf(Targets(st[2])) win == ColsDeps(top, SetOf(st[3]) \cup SetOf(st[4])) IN
+         SetTop(dstk, [top EXCEPT !.c = [x \in DOMAIN top.c \cup tg |->
+                         IF x \in tg THEN ColsDeps(top, {AsgOf(st[2], x)[3]}) \cup win \cup top.r ELSE top.c[x]]])
+    [] st[1] = "project" ->
+         LET tg == SetOf(Targets(st[2])) g == SetOf(st[3]) IN
+         SetTop(dstk, [c |-> [x \in g \cup tg |-> IF x \in tg THEN ColsDeps(top, {AsgOf(st[2], x)[3]}) ELSE top.c[x]],
+                       r |-> top.r \cup ColsDeps(top, g)])
+    [] st[1] = "select_rows"    -> SetTop(dstk, [top EXCEPT !.r = @ \cup ColsDeps(top, ColsOfE(st[2]))])
+    [] st[1] = "select_columns" -> SetTop(dstk, [top EXCEPT !.c = [x \in SetOf(st[2]) |-> top.c[x]]])
+    [] st[1] = "drop_columns"   -> SetTop(dstk, [top EXCEPT !.c = [x \in DOMAIN top.c \ SetOf(st[2]) |-> top.c[x]]])
+    [] st[1] = "rename" ->
+         SetTop(dstk, [top EXCEPT !.c = [x \in {NewName(st[2], y) : y \in DOMAIN top.c} |-> top.c[OldName(st[2], x)]]])
+    [] st[1] = "order_rows"     -> SetTop(dstk, [top EXCEPT !.r = @ \cup ColsDeps(top, SetOf(st[2]))])
+    [] st[1] \in {"join", "joinc"} ->
+         LET L == dstk[n - 1] R == top on == st[3]
+             kl == {on[p][1] : p \in 1..Len(on)}  kr == {on[p][2] : p \in 1..Len(on)} IN
+         Append(SubSeq(dstk, 1, n - 2),
+                [c |-> [x \in DOMAIN L.c \cup DOMAIN R.c |-> ColsDeps(L, {x}) \cup ColsDeps(R, {x})],
+                 r |-> L.r \cup R.r \cup ColsDeps(L, kl) \cup ColsDeps(R, kr)])
+    [] st[1] = "concat" ->
+         LET L == dstk[n - 1] R == top IN
+         Append(SubSeq(dstk, 1, n - 2),
+                [c |-> [x \in DOMAIN L.c \cup (IF st[2] = "" THEN {} ELSE {st[2]}) |-> ColsDeps(L, {x}) \cup ColsDeps(R, {x})],
+                 r |-> L.r \cup R.r])
+UsedOf(d) == d.r \cup UNION {d.c[x] : x \in DOMAIN d.c}
+
+\* ------------------------------------------------------------------ the builder (B model, C06 / C26)
+\* What the real builder methods construct (view_representations.py): a DAG term
+\*   <<"table", t>> | <<"n1", step, source>> | <<"n2", step, left, right>>
+\* built with the code's simplifications: an order_rows without limit is dropped when another step
+\* is put on it (is_trivial_when_intermediate_), consecutive extends are merged when
+\* try_to_merge_ops allows it, select_columns on a select/drop node goes to that node's source.
+\* BDev names what the code is KNOWN to do wrongly (DESIGN.md 6); BDev = {} is the repaired code.
+RECURSIVE EvalDag(_, _)
+EvalDag(d, I) ==
+  CASE d[1] = "table" -> I[d[2]]
+    [] d[1] = "n1"    -> Top(ApplyI(<<EvalDag(d[3], I)>>, d[2], {}, I))
+    [] d[1] = "n2"    -> Top(ApplyI(<<EvalDag(d[3], I), EvalDag(d[4], I)>>, d[2], {}, I))
+DagCols(d) == EvalDag(d, [t \in TabNames |-> Tbl(TabCols[t], <<>>)]).cols
+IsTrivial(d) == d[1] = "n1" /\ d[2][1] = "order_rows" /\ d[2][4] = 0
+\* data_ops_utils.try_to_merge_ops on the (produced, used) sets of two assignment lists;
+\* used(asg) is given as an operator so that it serves row-wise and windowed assignments
+AsgRestrict(asg, S) == SelectSeq(asg, LAMBDA a : a[1] \in S)
+MergeAsg(a1, a2, U(_)) ==
+  LET p1 == {a1[i][1] : i \in 1..Len(a1)}  p2 == {a2[i][1] : i \in 1..Len(a2)}
+      common == p1 \cap p2
+      u1 == U(a1) u2 == U(a2)
+      u1c == U(AsgRestrict(a1, common)) u2c == U(AsgRestrict(a2, common))
+      kept == AsgRestrict(a1, p1 \ common)
+  IN IF common # {}
+       THEN IF \/ u1c \cap p2 # {} \/ u1c \cap p1 # {} \/ u2c \cap p1 # {} \/ u2c \cap p2 # {}
+               \/ ("merge_common_branch" \notin BDev /\ (u2 \cap p1 # {} \/ U(kept) \cap p2 # {}))
+              THEN <<>> ELSE kept \o a2
+       ELSE IF u1 \cap p2 # {} \/ u2 \cap p1 # {} THEN <<>> ELSE a1 \o a2
+UsedRow(asg) == UNION {ColsOfE(asg[i][2]) : i \in 1..Len(asg)}
+UsedWin(asg) == {asg[i][3] : i \in 1..Len(asg)} \ {""}
+RECURSIVE Build1(_, _)
+Build1(d, st) ==
+  IF st[1] = "select_columns" /\ st[2] = DagCols(d) THEN d
+  ELSE IF IsTrivial(d) THEN Build1(d[3], st)
+  ELSE CASE st[1] = "extend" ->
+              IF d[1] = "n1" /\ d[2][1] = "extend" /\ MergeAsg(d[2][2], st[2], UsedRow) # <<>>
+                THEN <<"n1", <<"extend", MergeAsg(d[2][2], st[2], UsedRow)>>, d[3]>>
+                ELSE <<"n1", st, d>>
+         [] st[1] = "wextend" ->
+              IF /\ d[1] = "n1" /\ d[2][1] = "wextend"
+                 /\ d[2][3] = st[3] /\ d[2][4] = st[4] /\ d[2][5] = st[5]
+                 /\ MergeAsg(d[2][2], st[2], UsedWin) # <<>>
+                THEN <<"n1", <<"wextend", MergeAsg(d[2][2], st[2], UsedWin), st[3], st[4], st[5]>>, d[3]>>
+                ELSE <<"n1", st, d>>
+         [] st[1] = "select_columns" ->
+              IF d[1] = "n1" /\ d[2][1] \in {"select_columns", "drop_columns"} THEN Build1(d[3], st)
+              ELSE <<"n1", st, d>>
+         [] OTHER -> <<"n1", st, d>>
+RECURSIVE Build2(_, _, _)
+Build2(l, r, st) ==
+  IF IsTrivial(l)
+    THEN Build2(l[3], r, IF st[1] = "joinc" /\ "join_check_dropped_after_order" \in BDev THEN <<"join", st[2], st[3]>> ELSE st)
+    ELSE <<"n2", st, l, r>>
+BApply(bstk, st) ==
+  LET n == Len(bstk) IN
+  CASE st[1] = "table" -> Append(bstk, <<"table", st[2]>>)
+    [] st[1] = "dup"   -> Append(bstk, bstk[n])
+    [] st[1] \in {"join", "joinc", "concat"} -> Append(SubSeq(bstk, 1, n - 2), Build2(bstk[n - 1], bstk[n], st))
+    [] OTHER -> SetTop(bstk, Build1(bstk[n], st))
+\* does the BUILDER accept the step?  The code validates a step against the node it finally lands on.
+RECURSIVE Landing(_, _)
+Landing(d, st) ==
+  IF IsTrivial(d) THEN Landing(d[3], st)
+  ELSE IF st[1] = "select_columns" /\ "select_collapse_unchecked" \in BDev
+          /\ d[1] = "n1" /\ d[2][1] \in {"select_columns", "drop_columns"} THEN Landing(d[3], st)
+  ELSE d
+BAccepts(bstk, stk, st) ==
+  LET n == Len(bstk) IN
+  IF st[1] = "select_columns" /\ n >= 1
+    THEN WellFormed(st, <<Tbl(DagCols(Landing(bstk[n], st)), <<>>)>>)
+  ELSE IF st[1] = "joinc" /\ n >= 2 /\ "join_check_dropped_after_order" \in BDev /\ IsTrivial(bstk[n - 1])
+    THEN WellFormed(<<"join", st[2], st[3]>>, stk)
+  ELSE WellFormed(st, stk)
+\* shape of a DAG term for comparison with the real operator DAG (MODEL-DRIFT only)
+RECURSIVE DagShape(_)
+DagShape(d) ==
+  CASE d[1] = "table" -> <<"table", d[2]>>
+    [] d[1] = "n1"    -> <<d[2][1], IF d[2][1] \in {"extend", "wextend", "project"} THEN Targets(d[2][2]) ELSE <<>>, DagShape(d[3])>>
+    [] d[1] = "n2"    -> <<d[2][1], DagShape(d[3]), DagShape(d[4])>>
 
 \* ------------------------------------------------------------------ step alphabet
 \* Column kinds: "n" numeric, "s" text, "b" boolean (only derived columns p, q are boolean).
@@ -228,6 +361,7 @@ BinarySteps(lcols, rcols) ==
                 \cup {<<"join", jt, <<<<p[1], p[1]>>, <<p[2], p[2]>>>>>> :
                          jt \in {"INNER", "LEFT", "FULL"}, p \in Samp(1, Pairs(same))})
      \cup {<<"concat", id>> : id \in {"", "src"}}
+     \cup {<<"joinc", jt, <<<<c, c>>>>>> : jt \in {"INNER", "LEFT"}, c \in same}
 
 FocusAll == {"extend", "wextend", "project", "select_rows", "cols", "order", "stack", "binary"}
 FamSteps(f, stk) ==
@@ -259,13 +393,21 @@ BadCandidates(stk) ==
   \cup {<<"project", <<<<"z", "sum", "nosuch">>>>, <<>>>>}
   \cup {<<"project", <<<<c, "sum", c>>>>, <<c>>>> : c \in N}
   \cup {<<"project", <<<<"z", "cumsum", c>>>>, <<>>>> : c \in N}
+  \cup {<<"project", <<<<"z", fn, c>>>>, <<>>>> : fn \in BadFns, c \in N}
+  \cup {<<"wextend", <<<<"w", fn, c, 0>>>>, <<>>, <<>>, <<>>>> : fn \in {"complex", "argexpr"}, c \in N}
   \cup {<<"select_rows", <<"b", ">", C("nosuch"), K(1)>>>>}
   \cup {<<"select_columns", <<"nosuch">>>>, <<"drop_columns", <<"nosuch">>>>}
+  \* columns an earlier step removed: known to a source, not to this prefix
+  \cup {<<"select_columns", <<c>>>> : c \in UNION {SetOf(TabCols[t]) : t \in TabNames} \ SetOf(cols)}
+  \cup {<<"drop_columns", <<c>>>> : c \in UNION {SetOf(TabCols[t]) : t \in TabNames} \ SetOf(cols)}
+  \cup {<<"extend", <<<<"z", <<"b", "+", C(c), K(1)>>>>>>>> : c \in {x \in UNION {SetOf(TabCols[t]) : t \in TabNames} \ SetOf(cols) : Kind[x] = "n"}}
   \cup {<<"rename", <<<<"x2", "nosuch">>>>>>}
   \cup {<<"rename", <<<<p[1], p[2]>>>>>> : p \in Pairs(SetOf(cols))}
   \cup {<<"order_rows", <<"nosuch">>, <<>>, 0>>}
   \cup (IF n >= 2 THEN {<<"join", "INNER", <<<<"nosuch", "nosuch">>>>>>, <<"join", "CROSS", <<<<cols[1], cols[1]>>>>>>,
-                        <<"concat", cols[1]>>}
+                        <<"concat", cols[1]>>, <<"concat", "">>, <<"concat", "src">>}
+                       \cup {<<"joinc", jt, <<<<c, c>>>>>> : jt \in {"INNER", "LEFT"}, c \in SetOf(stk[n - 1].cols) \cap SetOf(cols)}
+                       \cup {<<"joinc", "INNER", <<>>>>}
         ELSE {})
 
 \* ------------------------------------------------------------------ the machine
@@ -279,6 +421,8 @@ Init ==
   /\ astack = [b \in Backends |-> <<>>]
   /\ hist = <<>>
   /\ ahist = [b \in Backends |-> <<>>]
+  /\ dstack = <<>>
+  /\ bstack = <<>>
 
 RowsOf(t) == [SetOf(TabCols[t]) -> UNION {ColVals[c] : c \in SetOf(TabCols[t])}]
 AddRow ==
@@ -288,13 +432,15 @@ AddRow ==
        /\ \E r \in Samp(SampleK, {f \in [SetOf(TabCols[t]) -> UNION {ColVals[c] : c \in SetOf(TabCols[t])}] :
                               \A c \in SetOf(TabCols[t]) : f[c] \in ColVals[c]}) :
             inp' = [inp EXCEPT ![t].rows = Append(@, r)]
-  /\ UNCHANGED <<phase, prog, stack, prev, astack, hist, ahist>>
+  /\ UNCHANGED <<phase, prog, stack, prev, astack, hist, ahist, dstack, bstack>>
 
 StartProg ==
   /\ phase = "data"
   /\ phase' = "prog"
   /\ stack' = <<inp["t1"]>>
   /\ astack' = [b \in Backends |-> <<inp["t1"]>>]
+  /\ dstack' = <<DepTable("t1")>>
+  /\ bstack' = <<<<"table", "t1">>>>
   /\ UNCHANGED <<inp, prog, prev, hist, ahist>>
 
 Step ==
@@ -309,7 +455,10 @@ Step ==
             /\ astack' = nas
             /\ ahist' = [b \in Backends |-> Append(ahist[b], IF Top(nas[b]) = Top(ns) THEN "same" ELSE Top(nas[b]))]
        /\ hist' = Append(hist, [ok |-> TRUE, top |-> Top(ns), ordered |-> Ordered(st, Top(ns)),
-                                conv |-> ConvPoint(st, stack), depth |-> Len(ns)])
+                                conv |-> ConvPoint(st, stack), depth |-> Len(ns),
+                                bok |-> BAccepts(bstack, stack, st)])
+       /\ dstack' = DepApply(dstack, st)
+       /\ bstack' = BApply(bstack, st)
   /\ UNCHANGED <<phase, inp>>
 
 BadStep ==
@@ -318,15 +467,18 @@ BadStep ==
   /\ Len(prog) < MaxSteps
   /\ \E st \in Samp(SampleK, {s \in BadCandidates(stack) : ~WellFormed(s, stack)}) :
        /\ prog' = Append(prog, st)
-       /\ hist' = Append(hist, [ok |-> FALSE, top |-> Top(stack), ordered |-> FALSE, conv |-> FALSE, depth |-> Len(stack)])
+       /\ hist' = Append(hist, [ok |-> FALSE, top |-> Top(stack), ordered |-> FALSE, conv |-> FALSE, depth |-> Len(stack),
+                                bok |-> BAccepts(bstack, stack, st)])
        /\ ahist' = [b \in Backends |-> Append(ahist[b], "same")]
-  /\ UNCHANGED <<phase, inp, stack, prev, astack>>
+  /\ UNCHANGED <<phase, inp, stack, prev, astack, dstack, bstack>>
 
 Next == AddRow \/ StartProg \/ Step \/ BadStep
 Spec == Init /\ [][Next]_vars
 
 \* ------------------------------------------------------------------ emission (spec -> code)
-Case == [inp |-> inp, prog |-> prog, hist |-> hist, alt |-> ahist, kinds |-> Kind]
+Case == [inp |-> inp, prog |-> prog, hist |-> hist, alt |-> ahist, kinds |-> Kind,
+         used |-> IF Len(dstack) = 0 THEN {} ELSE UsedOf(Top(dstack)),
+         dag |-> IF Len(bstack) = 0 THEN <<>> ELSE DagShape(Top(bstack))]
 Emit == (phase = "prog" /\ Len(prog) = MaxSteps /\ (EmitOneIn = 1 \/ RandomElement(1..EmitOneIn) = 1))
           => PrintT("CASE " \o ToJson(Case))
 
@@ -384,6 +536,28 @@ StepLaw ==
       [] st[1] = "join" -> JoinLaw(prev[n - 1], pre, st, post)
       [] st[1] = "concat" -> Len(post.rows) = Len(prev[n - 1].rows) + Len(pre.rows)
       [] OTHER -> TRUE
+\* C10: an input column outside the reference `Used` set cannot influence the result
+Perturb(I, t, c, v) == [I EXCEPT ![t].rows = [i \in 1..Len(I[t].rows) |-> [I[t].rows[i] EXCEPT ![c] = v]]]
+RECURSIVE RunProg(_, _, _)
+RunProg(stk, i, I) ==
+  IF i > Len(prog) THEN stk
+  ELSE RunProg(IF hist[i].ok THEN ApplyI(stk, prog[i], {}, I) ELSE stk, i + 1, I)
+EvalProg(I) == RunProg(<<I["t1"]>>, 1, I)
+Irrelevance ==
+  (phase = "prog" /\ Len(prog) > 0) =>
+    \A t \in TabNames : \A c \in SetOf(TabCols[t]) :
+      (<<t, c>> \notin UsedOf(Top(dstack))) =>
+         \A v \in ColVals[c] : BagEq(Top(EvalProg(Perturb(inp, t, c, v))), Top(stack))
+\* narrowing every input to the used columns leaves the result unchanged (second sentence of C10) is
+\* the same statement for tables-as-functions: a narrowed row is a row whose other cells are never read.
+
+\* C06: the DAG the builder holds means what the sequence of steps means
+BuilderMeaning ==
+  (phase = "prog") => \A i \in 1..Len(bstack) : BagEq(EvalDag(bstack[i], inp), stack[i])
+\* C06 / C26: the builder accepts exactly the steps the documented rules accept, also after
+\* prefixes it has simplified
+BuilderAcceptance == \A i \in 1..Len(hist) : hist[i].bok = hist[i].ok
+
 \* C18: the result does not depend on the order of the rows it is computed from
 PermLaw ==
   (phase = "prog" /\ Len(prog) > 0 /\ hist[Len(hist)].ok /\ prog[Len(prog)][1] \notin {"table", "dup"}) =>
